@@ -1,10 +1,12 @@
 import CryoCat.Drv.Proto
-import CryoCat.Model.C01
+import CryoCat.Model.C01_Bytes
 namespace CryoCat.Drv.C01
 open Lean CryoCat CryoCat.C01
 
-/-- `fillna(0.0)` then `astype(np.single)` -/
-def conv (v : Float) : Float32 := CryoCat.C01.conv Float.isNaN Float.toFloat32 0.0 v
+/-- IEEE binary64 numbers of the table; `astype(np.single)` is `Float.toFloat32` (round to nearest even) -/
+def floatOps : NumOps Float :=
+  { isNaN := Float.isNaN, ofInt := Float.ofInt,
+    bits32 := fun v => v.toFloat32.toBits, bits64 := fun v => v.toBits }
 
 def parseCols (a : Array Json) : Option (List Field) :=
   a.toList.mapM (fun j => match j with | Json.str s => Field.ofName? s | _ => none)
@@ -14,28 +16,87 @@ def parseRows (a : Array Json) : Option (List (List Nat)) :=
     | Json.arr cells => cells.toList.mapM (fun c => (c.getNat?).toOption)
     | _ => none)
 
-def fileJson (f : EmFile Float32) : Json :=
-  Json.mkObj [("dims", Json.arr #[f.dimX, f.dimY, f.dimZ]),
-              ("data", Json.arr (f.data.map (fun (x : Float32) => (x.toBits.toNat : Json))).toArray)]
+/-! hex transport of file bytes (glue, not part of the model) -/
+def hexVal (c : UInt8) : UInt8 :=
+  if c ≥ 48 && c ≤ 57 then c - 48 else if c ≥ 97 && c ≤ 102 then c - 87 else if c ≥ 65 && c ≤ 70 then c - 55 else 0
 
-def tableJson (t : Table Float32) : Json :=
+def parseHex (s : String) : List UInt8 := Id.run do
+  let b := s.toUTF8
+  let mut out : Array UInt8 := Array.mkEmpty (b.size / 2)
+  let mut i := 0
+  while i + 1 < b.size do
+    out := out.push (hexVal b[i]! * 16 + hexVal b[i + 1]!)
+    i := i + 2
+  return out.toList
+
+def hexDigit (n : UInt8) : UInt8 := if n < 10 then 48 + n else 87 + n
+
+def toHex (bs : List UInt8) : String := Id.run do
+  let mut out : ByteArray := ByteArray.emptyWithCapacity (2 * bs.length)
+  for b in bs do
+    out := (out.push (hexDigit (b / 16))).push (hexDigit (b % 16))
+  return String.fromUTF8! out
+
+def storedBits : Stored → Nat
+  | .f32 b => b.toNat
+  | .f64 b => b.toNat
+
+/-- a stored number as the float64 a loaded table shows (`pd.DataFrame(..., dtype=float)`) -/
+def storedAsF64Bits : Stored → Nat
+  | .f32 b => bitsOfFloat (Float32.ofBits b).toFloat
+  | .f64 b => b.toNat
+
+def fileJson (f : EmFile Stored) (withHex : Bool) : Json :=
+  Json.mkObj ([("dims", Json.arr #[f.dimX, f.dimY, f.dimZ]), ("dtype", (f.dtype : Json)),
+              ("data", Json.arr (f.data.map (fun x => (storedBits x : Json))).toArray)]
+              ++ (if withHex then [("hex", Json.str (toHex (encodeEm f)))] else []))
+
+def tableJson (t : Table Stored) : Json :=
   Json.mkObj [("cols", Json.arr (t.cols.map (fun f => Json.str f.name)).toArray),
-              ("rows", Json.arr (t.rows.map (fun r => Json.arr (r.map (fun (x : Float32) => (bitsOfFloat x.toFloat : Json))).toArray)).toArray)]
+              ("rows", Json.arr (t.rows.map (fun r => Json.arr (r.map (fun x => (storedAsF64Bits x : Json))).toArray)).toArray)]
+
+def verdictJson (spec : List UInt32) (bs : List UInt8) : Verdict → Json
+  | .ok => Json.mkObj [("verdict", "ok")]
+  | .notEm => Json.mkObj [("verdict", "not-em"), ("length", (bs.length : Json)),
+                          ("machine", ((bs.getD 0 0).toNat : Json)), ("dtype", ((bs.getD 3 0).toNat : Json)),
+                          ("dims", Json.arr #[u32At bs 4, u32At bs 8, u32At bs 12])]
+  | .shape x y z => Json.mkObj [("verdict", "shape"), ("dims", Json.arr #[x, y, z])]
+  | .value i => Json.mkObj [("verdict", "value"), ("index", (i : Json)),
+                            ("have", (((words (bs.drop 512)).getD i 0).toNat : Json)), ("want", ((spec.getD i 0).toNat : Json))]
+
+/-- the Lean checker's verdict on each real file handed over as hex -/
+def verdicts (j : Json) (t : Table Float) : Json :=
+  match j.getObjVal? "files" with
+  | .ok (Json.obj kvs) =>
+    let spec := specWords floatOps t
+    Json.mkObj (kvs.toList.map (fun (k, v) =>
+      match v with
+      | Json.str s => let bs := parseHex s; (k, verdictJson spec bs (checkFile spec t.rows.length bs))
+      | _ => (k, err "bad-hex")))
+  | _ => Json.mkObj []
 
 def handle (j : Json) : Json :=
-  match getStr? j "op", getArr? j "cols" >>= parseCols, getArr? j "rows" >>= parseRows with
-  | some op, some cols, some rows =>
-    let t : Table Float := { cols := cols, rows := rows.map (·.map floatOfBits) }
-    if !accepted cols then err "reject:format" else
-    match op with
-    | "write" => fileJson (writeEm conv 0.0 t)
-    | "write_asis" => fileJson (writeEmAsIs conv t)
-    | "roundtrip" =>
-      let f := writeEm conv 0.0 t
-      match readEm f with
-      | some t' => Json.mkObj [("file", fileJson f), ("table", tableJson t')]
-      | none => Json.mkObj [("file", fileJson f), ("table", err "reject:read")]
-    | _ => err "bad-op"
-  | _, _, _ => err "bad-args"
+  match getStr? j "op" with
+  | some "accepts" =>
+    match getArr? j "cols" >>= parseCols with
+    | some cols => Json.mkObj [("accepted", Json.bool (accepted cols))]
+    | none => Json.mkObj [("accepted", Json.bool false), ("why", "a column name is not one of the 20 fields")]
+  | some op =>
+    match getArr? j "cols" >>= parseCols, getArr? j "rows" >>= parseRows with
+    | some cols, some rows =>
+      let t : Table Float := { cols := cols, rows := rows.map (·.map floatOfBits) }
+      if !accepted cols then err "reject:format" else
+      match op with
+      | "write" => fileJson (writeGen floatOps t) true
+      | "write_asis" => fileJson (writeSrc false (some 0) true floatOps t) false
+      | "roundtrip" =>
+        let f := writeGen floatOps t
+        let tbl := match readEm f with
+          | some t' => tableJson t'
+          | none => err "reject:read"
+        Json.mkObj [("file", fileJson f true), ("table", tbl), ("verdicts", verdicts j t)]
+      | _ => err "bad-op"
+    | _, _ => err "bad-args"
+  | none => err "bad-args"
 
 end CryoCat.Drv.C01
